@@ -261,6 +261,8 @@ JudgeValidatedDoc(e, o, d) ==
      /\ J("C10", e, "oneway flag of a method vs. the source and the interface",
           same => \A i \in DOMAIN pr.ns : pr.ns[i].c = "method" =>
                      o.nodes[i].ow = (pr.ns[i].ow \/ pr.ns[ItemIx(pr.ns)].ow))
+     /\ J("C09", e, "explicit transact code of a method vs. the code written in the source",
+          same => \A i \in DOMAIN pr.ns : pr.ns[i].c = "method" => o.nodes[i].a = pr.ns[i].a)
      /\ J("C04", e, "range not well-formed after validation (offset / char boundary / line-column)",
           AllRangesWF(o.nodes, o.diags, ps))
      /\ J("C04", e, "name / full range of a construct after validation",
